@@ -1,6 +1,6 @@
 """C04 - names resolve through scopes, module, imports, context, builtins, UNDEFINED.
 
-Engine E1.  Seven exhaustively enumerated families, each case executed on the
+Engine E1.  Ten exhaustively enumerated families, each case executed on the
 real Template / TemplateLookup and compared with an independent oracle:
 
   res       binding-site subsets x read sites x read styles x strict_undefined:
@@ -21,6 +21,14 @@ real Template / TemplateLookup and compared with an independent oracle:
             spelling x 24 read sites (nested-def, top-level-def and def-in-<%call> defaults, keyword-only defaults, cache_key / cache_* attribute
             expressions of defs, blocks and the page, expressions, code, control lines, call tags) x present /
             absent x strict on/off; oracle = direct formula
+  sentinel  builtin-named variables bound (render argument / <%page> argument / <% %>) to UNDEFINED, None or the
+            object the read passes as explicit default; read by bare name, context.get / [] / keys(), in the body
+            and in a def called from it; formula oracle ("context before builtins")
+  attrs     tags whose attributes hold several expressions, each reading its own name (include file/args, call
+            tags, cache_key / cache_* of defs, blocks, page, filter arguments, namespace / inherit with explicit
+            context) x placement x each name absent x strict; formula oracle
+  cached    cached def / block / page whose body reads a free name, render sequences of one template against a
+            dict cache backend (present then absent, new key, ...) x strict: a render served from the cache reads nothing
   imports   compile history in one process: templates binding names through imports= (Template / TemplateLookup)
             or <%! %>, before and after templates that read the same names from the context (6 read sites x
             present/absent x strict); each operation has a history-free oracle, failures carry their prelude
@@ -71,6 +79,9 @@ BOUNDS = {
                   "{after, before} + 23 statement binders x {after, before}; x container {body, top-level def} x name {present, absent} x strict on/off",
         "reserved": "4 names x 6 entry points x 3 enable_loop configurations; 4 names x 15 assignment forms x 3 scopes x 3 configurations",
         "kwargs": "10 positions x 4 entry points x 3 argument sets",
+        "sentinel": "7 names (6 builtins + control) x {render argument, page argument, <% %>} x {UNDEFINED, None, default object} x {body, def} x 6 read forms (+strict for bare reads)",
+        "attrs": "15 multi-expression tags x placements {body, def, anonymous block, call body} x {all present, each name absent} x strict on/off",
+        "cached": "6 cached sections x 4 key forms x 4 render sequences x strict on/off",
         "imports": "one sequence per run: 28 reader operations, 20 binder operations, the readers again, the binders again (96 operations in one process)",
         "flagname": "24 read sites x 10 spellings (9 escape-flag names + control) x {present, absent} x strict on/off, minus str-present",
     },
@@ -81,6 +92,9 @@ BOUNDS = {
         "reread": "as quick x container {body, top-level def, nested def, anonymous block, call body}",
         "reserved": "as quick + 5 scopes",
         "kwargs": "as quick",
+        "sentinel": "7 names (6 builtins + control) x {render argument, page argument, <% %>} x {UNDEFINED, None, default object} x {body, def} x 6 read forms (+strict for bare reads)",
+        "attrs": "15 multi-expression tags x placements {body, def, anonymous block, call body} x {all present, each name absent} x strict on/off",
+        "cached": "6 cached sections x 4 key forms x 4 render sequences x strict on/off",
         "imports": "one sequence per run: 28 reader operations, 20 binder operations, the readers again, the binders again (96 operations in one process)",
         "flagname": "24 read sites x 10 spellings (9 escape-flag names + control) x {present, absent} x strict on/off, minus str-present",
     },
@@ -121,6 +135,9 @@ ASSUMPTIONS = [
     "(or enclosing callable) where it is raised; when several names of one callable are unresolvable any of them may be named",
     "DONT_CARE: passing loop to a render entry point of a template constructed with enable_loop=False whose <%page> tag re-enables the loop "
     "context (documentation: 'it's safe to pass the name loop to render' with enable_loop=False; mako's own tests do it)",
+    "DONT_CARE: <%inherit file> / <%namespace file> expressions see only `context` and module-level names (documented: 'the context must be "
+    "named explicitly'): bare context names are not generated there; a cached BLOCK served from the cache under strict_undefined may still raise "
+    "the strict NameError from the enclosing callable (block names are fetched there on entry); which error a missing include target gives (C07)",
     "DONT_CARE (not generated): a context variable called str (it shadows the name the default filter is written with: C02); "
     "a top-level def called by its bare name from a closure written in the body (call body, anonymous block, def inside them) counts as "
     "called from the body: it sees the page arguments and current <% %> values; from a named block or another top-level def: not generated",
@@ -922,6 +939,352 @@ def check_reserved(c, st):
 
 
 # --------------------------------------------------------------------------
+# shared: an in-process cache backend (no mako import at module level)
+
+
+def _install_cache_plugin():
+    from mako import cache
+    from mako.cache import CacheImpl
+
+    if "c04dict" in cache._cache_plugins.impls:
+        return
+
+    class C04DictCache(CacheImpl):
+        """echoes the key (or the cache_tag argument) it is given in front of the created content; stores nothing"""
+
+        def __init__(self, c):
+            self.cache = c
+
+        def get_or_create(self, key, creation_function, **kw):
+            return "{" + env.show(kw.get("tag", key)) + "}" + creation_function()
+
+        def set(self, key, value, **kw):
+            pass
+
+        def get(self, key, **kw):
+            return None
+
+        def invalidate(self, key, **kw):
+            pass
+
+    class C04StoreCache(CacheImpl):
+        """a real cache: one dict per Template"""
+
+        def __init__(self, c):
+            self.cache = c
+            self.store = {}
+
+        def get_or_create(self, key, creation_function, **kw):
+            if key not in self.store:
+                self.store[key] = creation_function()
+            return self.store[key]
+
+        def set(self, key, value, **kw):
+            self.store[key] = value
+
+        def get(self, key, **kw):
+            return self.store.get(key)
+
+        def invalidate(self, key, **kw):
+            self.store.pop(key, None)
+
+    cache._cache_plugins.impls["c04dict"] = lambda: C04DictCache
+    cache._cache_plugins.impls["c04store"] = lambda: C04StoreCache
+
+
+def _wrap_place(place, frag):
+    """put a fragment into the body / a top-level def / an anonymous block / a call body"""
+    if place == "body":
+        return frag
+    if place == "def":
+        return '<%def name="pf()">' + frag + "</%def>${pf()}"
+    if place == "anon":
+        return "<%block>" + frag + "</%block>"
+    if place == "callbody":
+        return '<%call expr="pw()">' + frag + '</%call><%def name="pw()">${caller.body()}</%def>'
+    raise ValueError(place)
+
+
+# --------------------------------------------------------------------------
+# family sentinel: "context before builtins" when the context VALUE is the lookup's own default.  A name that is a
+# Python builtin is bound (render argument / <%page> argument / <% %> assignment) to UNDEFINED, None or the object that
+# the read passes as explicit default, and read by bare name and through context.get / [] / keys().  Formula oracle.
+
+SENT_BUILTINS = ["id", "format", "max", "filter", "type"]
+SENT_READS = {
+    "bare": "sh(N)",
+    "get": "sh(context.get('N'))",
+    "get-UNDEFINED": "sh(context.get('N', UNDEFINED))",
+    "get-default": "sh(context.get('N', dfl))",
+    "item": "sh(context['N'])",
+    "in-keys": "'N' in context.keys()",
+}
+SENT_VALUES = {"U": "UNDEFINED", "None": "None", "D": "dfl"}
+
+
+def sentinel_cases(al):
+    names = SENT_BUILTINS + ([al.builtin] if al.builtin not in SENT_BUILTINS else []) + [al.name]
+    for name in names:
+        for bind in ("ctx", "page", "assign"):
+            for val in SENT_VALUES:
+                if val == "D" and bind == "page":
+                    continue  # a <%page> default is evaluated when the module is imported: no context object there
+                for loc in ("body", "def"):
+                    for read in SENT_READS:
+                        for strict in ((False, True) if read == "bare" else (False,)):
+                            yield {"name": name, "bind": bind, "val": val, "loc": loc, "read": read, "strict": strict}
+
+
+def check_sentinel(al, c, st):
+    import builtins
+    from mako.template import Template
+    from mako.runtime import UNDEFINED
+
+    name, bind, val, loc, read = c["name"], c["bind"], c["val"], c["loc"], c["read"]
+    head = ""
+    if bind == "page":
+        head = '<%%page args="%s=%s"/>' % (name, SENT_VALUES[val])
+    elif bind == "assign":
+        head = "<%% %s = %s %%>" % (name, SENT_VALUES[val])
+    expr = SENT_READS[read].replace("N", name)
+    if loc == "body":
+        src = head + "[${%s}]" % expr
+    else:
+        src = head + '${f()}<%def name="f()">[${' + expr + "}]</%def>"
+    ctx = {"sh": env.show, "dfl": env.DEFAULT}
+    realval = {"U": UNDEFINED, "None": None, "D": env.DEFAULT}[val]
+    if bind == "ctx":
+        ctx[name] = realval
+    shown = {"U": "U", "None": env.show(None), "D": env.show(env.DEFAULT)}[val]
+    # oracle.  Where is the binding visible?  a render argument: everywhere.  A page argument / body assignment: as a
+    # Python local in the body, and through the context of a def called by its bare name from the body.
+    if read == "bare":
+        visible = bind == "ctx" or loc == "def" or loc == "body"
+    else:
+        visible = bind == "ctx" or loc == "def"
+    isb = name in builtins.__dict__
+    if read == "in-keys":
+        exp = ("out", "[%s]" % visible)
+    elif visible:
+        exp = ("out", "[%s]" % shown)
+    elif isb:
+        exp = ("out", "[%s]" % env.show(builtins.__dict__[name]))
+    elif read == "bare":
+        exp = ("exc", "NameError", "'%s' is not defined" % name, [name]) if c["strict"] else ("out", "[U]")
+    elif read == "item":
+        exp = ("exc", "KeyError", repr(name))
+    else:
+        exp = ("out", "[%s]" % {"get": env.show(None), "get-UNDEFINED": "U", "get-default": env.show(env.DEFAULT)}[read])
+    st.evaluations += 1
+    st.transitions += 1
+    st.traces += 1
+    st.oracles["sentinel"] += 1
+    try:
+        obs = ("out", Template(src, strict_undefined=c["strict"]).render_unicode(**ctx))
+    except Exception as e:  # noqa
+        obs = ("exc", type(e).__name__, str(e))
+    ok = agrees(exp, obs, c["strict"])
+    st.outcomes[("sentinel", "builtin-name" if isb else "ordinary-name", val, "ok" if ok else "differs")] += 1
+    if not ok:
+        sig = "sentinel:%s:%s-bound-to-%s:read-%s" % ("builtin-name" if isb else "ordinary-name", bind, SENT_VALUES[val].replace("dfl", "the-default-object"), read)
+        st.violation(sig, {"fam": "sentinel", "c": c, "seed": al.seed, "template": src}, "context before builtins (formula)", expected=list(exp), observed=list(obs))
+    if st.evaluations % 197 == 1:
+        st.sample({"fam": "sentinel", "c": c, "template": src, "expected": list(exp)})
+
+
+# --------------------------------------------------------------------------
+# family attrs: tag attributes (and other pieces) holding SEVERAL expressions; each expression reads its own name,
+# read nowhere else in the scope.  Every name has to be fetched.  Formula oracle.
+
+ATTR_FILES = {
+    "/d/i.html": "[inc]",
+    "/d/q.html": '<%page args="q"/>[${q}]',
+    "/d/n.html": '<%def name="p()">[ns]</%def>',
+    "/d/t.html": "[T:${self.body()}]",
+}
+# tag -> (fragment, names, expected when all present, result class when a name is absent and not strict, file-level only)
+ATTR_TAGS = {
+    "include-file": ('<%include file="/${a}/${b}.html"/>', "ab", "[inc]", "TypeError", False),
+    "include-file-3": ('<%include file="/${a}/${b}.${c}"/>', "abc", "[inc]", "TypeError", False),
+    "include-file-adjacent": ('<%include file="/${a}${e}/${b}.html"/>', "aeb", "[inc]", "TypeError", False),
+    "include-args": ('<%include file="/d/q.html" args="q=a + b"/>', "ab", "[di]", "TypeError", False),
+    "include-file-and-args": ('<%include file="/${a}/q.html" args="q=b"/>', "ab", "[i]", None, False),
+    "call-tag-attribute": ('<%self:show v="${a}-${b}"/>', "ab", "[d-i]", "TypeError", False),
+    "call-tag-two-attributes": ('<%self:show2 v="${a}" w="${b}"/>', "ab", "[d|i]", "U", False),
+    "call-expr": ('<%call expr="show(a + \'-\' + b)"></%call>', "ab", "[d-i]", "TypeError", False),
+    "def-cache_key": ('<%def name="cf()" cached="True" cache_key="${a}-${b}">[c]</%def>${cf()}', "ab", "{d-i}[c]", "TypeError", False),
+    "def-cache_key-and-argument": ('<%def name="cf()" cached="True" cache_key="${a}" cache_tag="${b}">[c]</%def>${cf()}', "ab", "{i}[c]", "U", False),
+    "block-cache_key": ('<%block cached="True" cache_key="${a}-${b}">[c]</%block>', "ab", "{d-i}[c]", "TypeError", False),
+    "expression-filter-arguments": ("[${'v' | tagf(a), tagf(b)}]", "ab", "[i(d(v))]", "TypeError", False),
+    "page-cache_key": ('<%page cached="True" cache_key="${a}-${b}"/>[c]', "ab", "{d-i}[c]", "TypeError", True),
+    "namespace-file-explicit-context": (
+        "<%namespace name=\"ns\" file=\"/${context['a']}/${context['b']}.html\"/>${ns.p()}", "ab", "[ns]", "KeyError", True),
+    "inherit-file-explicit-context": ("<%inherit file=\"/${context['a']}/${context['b']}.html\"/>x", "ab", "[T:x]", "KeyError", True),
+}
+ATTR_VALUES = {"a": "d", "b": "i", "c": "html", "e": ""}
+ATTR_VALUES_BY_TAG = {"namespace-file-explicit-context": {"a": "d", "b": "n"}, "inherit-file-explicit-context": {"a": "d", "b": "t"}}
+ATTR_PLACES = ["body", "def", "anon", "callbody"]
+
+
+def attrs_cases():
+    for tag, (_f, names, _e, _a, filelevel) in ATTR_TAGS.items():
+        for place in (["body"] if filelevel else ATTR_PLACES):
+            absents = [""] + list(names)
+            for absent in absents:
+                for strict in (False, True):
+                    yield {"tag": tag, "place": place, "absent": absent, "strict": strict}
+
+
+def check_attrs(al, c, st):
+    from mako.lookup import TemplateLookup
+
+    _install_cache_plugin()
+    frag, names, exp_all, absent_class, _fl = ATTR_TAGS[c["tag"]]
+    # spell the names after the seed's alphabet (a -> a_<name> ...): interchangeable identifiers
+    spelled = {n: "%s_%s" % (n, al.name) for n in names}
+    for n in names:
+        frag = frag.replace("${%s}" % n, "${%s}" % spelled[n]).replace("context['%s']" % n, "context['%s']" % spelled[n])
+    if c["tag"] in ("include-args", "call-expr"):
+        frag = frag.replace("a + ", spelled["a"] + " + ").replace("+ b", "+ " + spelled["b"])
+    if c["tag"] == "include-file-and-args":
+        frag = frag.replace("q=b", "q=" + spelled["b"])
+    if c["tag"] == "expression-filter-arguments":
+        frag = frag.replace("tagf(a)", "tagf(%s)" % spelled["a"]).replace("tagf(b)", "tagf(%s)" % spelled["b"])
+    src = _wrap_place(c["place"], frag)
+    src += '<%def name="show(v)">[${v}]</%def><%def name="show2(v, w)">[${sh(v)}|${sh(w)}]</%def>'
+    vals = dict(ATTR_VALUES, **ATTR_VALUES_BY_TAG.get(c["tag"], {}))
+    ctx = {"sh": env.show, "tagf": env.tagf}
+    for n in names:
+        if n != c["absent"]:
+            ctx[spelled[n]] = vals[n]
+    if not c["absent"]:
+        exp = ("out", exp_all)
+    elif absent_class == "KeyError":
+        exp = ("exc", "KeyError", repr(spelled[c["absent"]]))
+    elif c["strict"]:
+        exp = ("exc", "NameError", "'%s' is not defined" % spelled[c["absent"]], [spelled[c["absent"]]])
+    elif absent_class == "U":
+        exp = ("out", exp_all.replace(vals[c["absent"]], "U", 1) if c["tag"] != "def-cache_key-and-argument" else ("{U}[c]" if c["absent"] == "b" else exp_all))
+    elif absent_class is None:
+        exp = None  # which error a missing include target / argument gives is C07's business
+    else:
+        exp = ("exc", absent_class, "")
+    st.evaluations += 1
+    st.transitions += 1
+    st.traces += 1
+    st.oracles["attrs"] += 1
+    try:
+        lk = TemplateLookup(strict_undefined=c["strict"], cache_impl="c04dict")
+        for u, text in ATTR_FILES.items():
+            lk.put_string(u, text)
+        lk.put_string("/main.html", src)
+        obs = ("out", lk.get_template("/main.html").render_unicode(**ctx))
+    except Exception as e:  # noqa
+        obs = ("exc", type(e).__name__, str(e))
+    if exp is None:
+        st.outcomes[("attrs", "dontcare", obs[0])] += 1
+        return
+    ok = agrees(exp, obs, c["strict"])
+    st.outcomes[("attrs", exp[1] if exp[0] == "exc" else "out", "ok" if ok else (obs[1] if obs[0] == "exc" else "out"))] += 1
+    if not ok:
+        if obs[0] == "exc" and obs[1] == "NameError" and obs[2].startswith("name '"):
+            sym = "NameError(not-fetched)"
+        else:
+            sym = "exp=%s:obs=%s" % (exp[1] if exp[0] == "exc" else "out", obs[1] if obs[0] == "exc" else "out")
+        st.violation("attrs:%s:%s" % (c["tag"], sym), {"fam": "attrs", "c": c, "seed": al.seed, "template": src}, "every expression of an attribute reads its name (formula)", expected=list(exp), observed=list(obs))
+    if st.evaluations % 97 == 1:
+        st.sample({"fam": "attrs", "c": c, "template": src, "expected": list(exp)})
+
+
+# --------------------------------------------------------------------------
+# family cached: a cached section whose body reads a free name; renders of ONE template in sequence against a real
+# (dict) cache backend.  A render served from the cache does not read the name: no NameError under strict_undefined.
+
+CACHED_SECTIONS = {
+    "toplevel-def": '<%def name="cf()" cached="True"@KEY@>[${sh(@T@)}]</%def>${cf()}',
+    "nested-def": '<%def name="o()"><%def name="cf()" cached="True"@KEY@>[${sh(@T@)}]</%def>${cf()}</%def>${o()}',
+    "def-in-anonymous-block": '<%block><%def name="cf()" cached="True"@KEY@>[${sh(@T@)}]</%def>${cf()}</%block>',
+    "anonymous-block": '<%block cached="True"@KEY@>[${sh(@T@)}]</%block>',
+    "named-block": '<%block name="nb" cached="True"@KEY@>[${sh(@T@)}]</%block>',
+    "page": '<%page cached="True"@KEY@/>[${sh(@T@)}]',
+}
+CACHED_KEYS = {"default-key": "", "literal-key": ' cache_key="lit"', "literal-key-and-argument": ' cache_key="lit" cache_tag="x"', "expression-key": ' cache_key="${@K@}"'}
+# render sequences: (T present?, key value)
+CACHED_SEQS = {
+    "present-then-absent": [(True, "k1"), (False, "k1")],
+    "present-then-absent-then-new-key": [(True, "k1"), (False, "k1"), (False, "k2")],
+    "absent-then-present": [(False, "k1"), (True, "k1")],
+    "present-twice-other-value": [(True, "k1"), ("other", "k1")],
+}
+
+
+def cached_cases():
+    for sec in CACHED_SECTIONS:
+        for key in CACHED_KEYS:
+            for seq in CACHED_SEQS:
+                for strict in (False, True):
+                    yield {"section": sec, "key": key, "seq": seq, "strict": strict}
+
+
+def check_cached(al, c, st):
+    from mako.template import Template
+
+    _install_cache_plugin()
+    T, K = "t_" + al.name, "k_" + al.name2
+    src = CACHED_SECTIONS[c["section"]].replace("@KEY@", CACHED_KEYS[c["key"]]).replace("@T@", T).replace("@K@", K)
+    st.evaluations += 1
+    st.traces += 1
+    st.oracles["cached"] += 1
+    case = {"fam": "cached", "c": c, "seed": al.seed, "template": src}
+    try:
+        t = Template(src, strict_undefined=c["strict"], cache_impl="c04store")
+    except Exception as e:  # noqa
+        st.violation("cached:%s:does-not-compile" % c["section"], case, "cached section compiles", expected="compiles", observed="%s: %s" % (type(e).__name__, e))
+        return
+    store = {}
+    for i, (present, kval) in enumerate(CACHED_SEQS[c["seq"]]):
+        ctx = {"sh": env.show, K: kval}
+        if present:
+            ctx[T] = "T1" + al.sfx if present is True else "T2" + al.sfx
+        ckey = kval if c["key"] == "expression-key" else "fixed"
+        # model: a stored text is returned as it is; otherwise the body runs: value / U / strict NameError (nothing stored)
+        if ckey in store:
+            exp = ("out", store[ckey])
+        elif present:
+            exp = ("out", "[%s]" % ctx[T])
+        elif c["strict"]:
+            exp = ("exc", "NameError", "'%s' is not defined" % T, [T])
+        else:
+            exp = ("out", "[U]")
+        if exp[0] == "out":
+            store[ckey] = exp[1]
+        st.transitions += 1
+        try:
+            obs = ("out", t.render_unicode(**ctx))
+        except Exception as e:  # noqa
+            obs = ("exc", type(e).__name__, str(e))
+        ok = agrees(exp, obs, c["strict"])
+        if (
+            not ok
+            and c["strict"]
+            and not present
+            and c["section"] in ("anonymous-block", "named-block")
+            and agrees(("exc", "NameError", "", [T]), obs, True)
+        ):
+            # DONT_CARE: the names a block reads are fetched by the callable the block is written in (the body), on its
+            # entry; under strict_undefined a name absent from the context is reported there although the block itself
+            # would have been served from the cache.  Where the strict NameError is raised is not fixed by the statement.
+            st.outcomes[("cached", "render-%d" % (i + 1), "dontcare: strict NameError from the enclosing callable of a cached block")] += 1
+            continue
+        st.outcomes[("cached", "render-%d" % (i + 1), exp[1] if exp[0] == "exc" else "out", "ok" if ok else (obs[1] if obs[0] == "exc" else "out"))] += 1
+        if not ok:
+            served = "served-from-cache" if (ckey in store and exp[0] == "out" and i > 0 and store.get(ckey) == exp[1] and not (present and exp[1] == "[%s]" % ctx.get(T))) else "body-runs"
+            sig = "cached:%s:%s:%s:exp=%s:obs=%s" % (c["section"], c["key"], served, exp[1] if exp[0] == "exc" else "out", obs[1] if obs[0] == "exc" else "out")
+            st.violation(sig, dict(case, render=i + 1), "cached section (dict model)", expected=list(exp), observed=list(obs))
+            return
+
+
+# --------------------------------------------------------------------------
 # family flagname: the tested variable is spelled like one of the escape flags (x, h, u, n, trim, entity, unicode,
 # decode, str).  After '|' or in filter="..." these words are filter names; read anywhere else they are ordinary
 # variables.  Oracle: a direct formula (context value -> builtin -> UNDEFINED | strict NameError), no mako code.
@@ -976,34 +1339,6 @@ def flag_cases(al):
                     continue
                 for strict in (False, True):
                     yield {"site": site, "name": name, "present": present, "strict": strict}
-
-
-def _install_cache_plugin():
-    from mako import cache
-    from mako.cache import CacheImpl
-
-    if "c04dict" in cache._cache_plugins.impls:
-        return
-
-    class C04DictCache(CacheImpl):
-        """echoes the key (or the cache_tag argument) it is given in front of the created content; stores nothing"""
-
-        def __init__(self, c):
-            self.cache = c
-
-        def get_or_create(self, key, creation_function, **kw):
-            return "{" + env.show(kw.get("tag", key)) + "}" + creation_function()
-
-        def set(self, key, value, **kw):
-            pass
-
-        def get(self, key, **kw):
-            return None
-
-        def invalidate(self, key, **kw):
-            pass
-
-    cache._cache_plugins.impls["c04dict"] = lambda: C04DictCache
 
 
 def check_flag(al, c, st, sites=None):
@@ -1294,6 +1629,9 @@ def plan(tier, seed):
     jobs.append({"kind": "kwargs", "tier": tier, "seed": seed})
     jobs.append({"kind": "flagname", "tier": tier, "seed": seed})
     jobs.append({"kind": "imports", "tier": tier, "seed": seed})
+    jobs += [{"kind": "sentinel", "tier": tier, "seed": seed, "shard": i, "nshards": 3} for i in range(3)]
+    jobs += [{"kind": "attrs", "tier": tier, "seed": seed, "shard": i, "nshards": 2} for i in range(2)]
+    jobs.append({"kind": "cached", "tier": tier, "seed": seed})
     return jobs
 
 
@@ -1349,6 +1687,18 @@ def _run_job(job, st):
         st.extra["kwargs_cases"] = st.states
     elif kind == "imports":
         run_imports_family(al, st)
+    elif kind in ("sentinel", "attrs", "cached"):
+        gen = {"sentinel": lambda: sentinel_cases(al), "attrs": attrs_cases, "cached": cached_cases}[kind]()
+        fn = {"sentinel": check_sentinel, "attrs": check_attrs, "cached": check_cached}[kind]
+        n = 0
+        for i, c in enumerate(gen):
+            if i % job.get("nshards", 1) != job.get("shard", 0):
+                continue
+            fn(al, c, st)
+            st.states += 1
+            st.nontrivial += 1
+            n += 1
+        st.extra[kind + "_cases"] = n
     elif kind == "flagname":
         for c in flag_cases(al):
             check_flag(al, c, st)
@@ -1361,7 +1711,7 @@ def _run_job(job, st):
 
 def post(tier, seed, st):
     walls = st.extra.pop("job_walls", [])
-    for k in ("res", "stmt", "reread", "reserved", "kwargs", "flagname", "imports"):
+    for k in ("res", "stmt", "reread", "reserved", "kwargs", "flagname", "imports", "sentinel", "attrs", "cached"):
         st.extra.pop("job_wall_max_s_" + k, None)
     st.extra["slowest_job_wall_s"] = max([w[2] for w in walls] or [0])
     st.extra["alphabet"] = {k: v for k, v in Alpha(seed).__dict__.items()}
@@ -1381,6 +1731,8 @@ def replay(case):
         check_kwargs(case["c"], st)
     elif fam == "flagname":
         check_flag(Alpha(case["seed"]), case["c"], st)
+    elif fam in ("sentinel", "attrs", "cached"):
+        {"sentinel": check_sentinel, "attrs": check_attrs, "cached": check_cached}[fam](Alpha(case["seed"]), case["c"], st)
     elif fam == "imports":
         r = check_imports_op(Alpha(case["seed"]), case["op"], st)
         if r is not None:
